@@ -207,12 +207,22 @@ def _bind(fn, kind, call, recv):
     return prelude, mapping, subst
 
 
+PKG = {}        # module name -> raw tree of every module of the package (set by the loader): helpers defined in a sibling module
+
+
 class Inliner:
     def __init__(self, tree, modname, known):
         self.tree = tree
+        self.all_known = known
         self.known = known.get(modname, set()) if known is not None else None
         self.mod_funcs = {}
         self.cls_funcs = {}       # private name -> [(class name, fn)]
+        # names imported from sibling modules: local name -> (module, original name)
+        self.imported = {}
+        for st in tree.body:
+            if isinstance(st, ast.ImportFrom) and st.level >= 1 and st.module:
+                for a in st.names:
+                    self.imported[a.asname or a.name] = (st.module.split(".")[-1], a.name)
         for st in tree.body:
             if isinstance(st, ast.FunctionDef):
                 self.mod_funcs[st.name] = st
@@ -229,6 +239,28 @@ class Inliner:
         if isinstance(f, ast.Name) and is_private(f.id) and f.id in self.mod_funcs and f.id not in self.known:
             fn = self.mod_funcs[f.id]
             return (fn, "static", None) if _eligible(fn) else None
+        # a new helper that lives in a sibling module: `from .utils import VectorAndNumbers` ... VectorAndNumbers.gen_levels(..)
+        if isinstance(f, ast.Attribute) and isinstance(f.value, ast.Name) and f.value.id in self.imported and is_private(f.attr):
+            omod, oname = self.imported[f.value.id]
+            otree = PKG.get(omod)
+            okn = (self.all_known or {}).get(omod, set())
+            if otree is not None and "%s.%s" % (oname, f.attr) not in okn:
+                for st in otree.body:
+                    if isinstance(st, ast.ClassDef) and st.name == oname:
+                        for m in st.body:
+                            if isinstance(m, ast.FunctionDef) and m.name == f.attr and _eligible(m) and _kind(m) in ("static", "class") \
+                                    and not self._uses_module_names(m, otree):
+                                return copy.deepcopy(m), _kind(m), f.value
+            return None
+        if isinstance(f, ast.Name) and f.id in self.imported and is_private(f.id):
+            omod, oname = self.imported[f.id]
+            otree = PKG.get(omod)
+            okn = (self.all_known or {}).get(omod, set())
+            if otree is not None and oname not in okn:
+                for st in otree.body:
+                    if isinstance(st, ast.FunctionDef) and st.name == oname and _eligible(st) and not self._uses_module_names(st, otree):
+                        return copy.deepcopy(st), "static", None
+            return None
         if isinstance(f, ast.Attribute) and is_private(f.attr) and isinstance(f.value, ast.Name):
             cands = self.cls_funcs.get(f.attr, [])
             if len(cands) != 1:
@@ -246,6 +278,29 @@ class Inliner:
                 return None
             return fn, kind, recv
         return None
+
+    def _uses_module_names(self, fn, otree):
+        """a helper from another module may be moved here only if it refers to nothing but its parameters, its locals,
+        builtins and names that mean the same in this module (same import)"""
+        import builtins
+        params = {a.arg for a in ast.walk(fn.args) if isinstance(a, ast.arg)}
+        stored = {n.id for n in ast.walk(fn) if isinstance(n, ast.Name) and isinstance(n.ctx, (ast.Store, ast.Del))}
+        here = set()
+        for st in self.tree.body:
+            if isinstance(st, (ast.Import, ast.ImportFrom)):
+                for a in st.names:
+                    here.add((a.asname or a.name).split(".")[0])
+        there = {}
+        for st in otree.body:
+            if isinstance(st, (ast.Import, ast.ImportFrom)):
+                for a in st.names:
+                    there[(a.asname or a.name).split(".")[0]] = ast.dump(st)
+        for n in ast.walk(fn):
+            if isinstance(n, ast.Name) and isinstance(n.ctx, ast.Load) and n.id not in params and n.id not in stored and not hasattr(builtins, n.id):
+                if n.id in there and n.id in here:
+                    continue
+                return True
+        return False
 
     @property
     def class_names(self):
@@ -482,6 +537,26 @@ def has_new_helpers(tree, modname, known):
     if known is None:
         return False
     kn = known.get(modname, set())
+    # calls of helpers of sibling modules that the rules have never seen
+    imported = {}
+    for st in tree.body:
+        if isinstance(st, ast.ImportFrom) and st.level >= 1 and st.module:
+            for a in st.names:
+                imported[a.asname or a.name] = (st.module.split(".")[-1], a.name)
+    if imported:
+        for n in ast.walk(tree):
+            if isinstance(n, ast.Call):
+                f = n.func
+                if isinstance(f, ast.Attribute) and isinstance(f.value, ast.Name) and f.value.id in imported:
+                    omod, oname = imported[f.value.id]
+                    if omod in PKG and "%s.%s" % (oname, f.attr) not in known.get(omod, set()) and any(
+                            isinstance(c, ast.ClassDef) and c.name == oname and any(isinstance(m, ast.FunctionDef) and m.name == f.attr for m in c.body)
+                            for c in PKG[omod].body):
+                        return True
+                elif isinstance(f, ast.Name) and f.id in imported:
+                    omod, oname = imported[f.id]
+                    if omod in PKG and oname not in known.get(omod, set()) and any(isinstance(c, ast.FunctionDef) and c.name == oname for c in PKG[omod].body):
+                        return True
     for st in tree.body:
         if isinstance(st, ast.FunctionDef) and is_private(st.name) and st.name not in kn:
             return True
